@@ -179,9 +179,7 @@ def family(ctx):
             continue
         cases.append(f"({_lit(inst, t)}, {copt(obs)})")
         meta.append(inst)
-    ok, di, df, raw = U.two_index_lists(ctx, ["OV.Rules.ConvAffine"], "From Coq Require Import QArith.\n"
-                                        f"Definition cases : list ca_case := {clist(cases)}.\n"
-                                        "Definition dis_impl := ca_dis false cases.\nDefinition dis_fixed := ca_dis true cases.")
+    ok, di, df, raw = U.eval_cases(ctx, ["OV.Rules.ConvAffine"], "ca_case", cases, "ca_dis", prelude="From Coq Require Import QArith.\n", chunk=150)
     if not ok:
         ctx.tie_broken("correspondence", f"{FAM}:model-evaluation", raw[-800:])
         return
